@@ -1,19 +1,74 @@
 from vp.api import Q, Mutant
 TITLE = "Taskpool identifiers resolve to the registered taskpool"
 U = "parsec/parsec.c"
-OUTSIDE = []
-ASSUMPTIONS = []
-BOUNDS = {"quick": {}, "thorough": {}}
+OUTSIDE = ["concurrent reservations: CBMC's thread encoding refuses the unit ('pointer handling for concurrency is unsound': taskpool_array is a shared "
+           "pointer re-assigned under the lock) and the IR sequentializer (Engine S) is not part of vp/ yet; only 'the registry lock is released after every operation' is checked",
+           "id 0 (never handed out; slot 0 of the array is left uninitialised by the code, lookup(0) on a fresh registry dereferences NULL)",
+           "arrays larger than 32 slots (pre-states up to 8 slots quick / 16 thorough)",
+           "taskpool ids written by hand instead of obtained from parsec_taskpool_reserve_id (register then only doubles once)",
+           "several OS processes: 'all processes assign the same id' is reduced to: after sync every rank's position = MAX over the ranks (the stub), next id = that + 1"]
+ASSUMPTIONS = ["caller contract (runtime.h): register only a taskpool holding an id from reserve_id and not currently registered; unregister only a registered taskpool",
+               "MPI_Allreduce stub = MAX of the local value and one enumerated remote maximum R; MPI_Initialized stub = symbolic flag",
+               "representation invariant Inv (ind.c header) is ours; it holds in the initial state (S=1 queries build exactly that state) and is re-proved after every operation (closure)"]
+BOUNDS = {"quick": {"array size S": "1 (unallocated), 2, 4, 8", "remote max R": "enumerated per S: below / at / beyond the current size, up to 17", "taskpools": 3},
+          "thorough": {"array size S": "1, 2, 4, 8, 16", "remote max R": "up to 40", "taskpools": 3}}
+OPN = {1: "reserve", 2: "register", 3: "unregister", 4: "sync", 5: "lookup"}
+SYNC_R = {1: [0, 1, 5], 2: [1, 2, 3], 4: [0, 2, 4, 7, 8, 17], 8: [3, 8, 15, 16], 16: [9, 16, 31, 40]}
+
+def p2above(r):
+    m = 1
+    while m <= r:
+        m <<= 1
+    return m
 
 def queries(ctx):
-    info = {"symbolic": ["operation kind and taskpool of every step", "MPI up or not, remote maximum R of every sync", "looked-up id"],
+    info = {"symbolic": ["pos", "state (fresh/reserved/registered/unregistered) and id of each of 3 taskpools", "content of slot 0", "taskpool operated on", "MPI up or not", "looked-up id"],
+            "enumerated": ["array size S", "operation kind", "remote maximum R of the sync"],
             "functions": ["parsec_taskpool_reserve_id", "parsec_taskpool_register", "parsec_taskpool_unregister", "parsec_taskpool_lookup", "parsec_taskpool_sync_ids_context"],
-            "stubs": ["MPI_Initialized (symbolic flag)", "MPI_Allreduce = MAX with a symbolic remote contribution"]}
-    qs = [Q("hist_k5", ["h.c", "repo:" + U], defs=["K=5", "RMAX=9"], unwind=33, checks=["bounds", "pointer"], object_bits=12,
-            info=dict(info, bounds={"operations": 5, "taskpools": 3, "remote max": "0..9"}), timeout=900)]
+            "stubs": ["MPI_Initialized (symbolic flag)", "MPI_Allreduce = MAX(local, R)"]}
+    qs = []
+    sizes = [1, 2, 4, 8] + ([16] if ctx.thorough else [])
+    for s in sizes:
+        tiers = ("thorough",) if s == 16 else ("quick", "thorough")
+        cfgs = []
+        for op in (1, 2, 3, 5):
+            if s == 1 and op in (2, 3):
+                continue        # no taskpool can hold an id while pos == 0
+            cfgs.append((op, 0))
+        cfgs += [(4, r) for r in SYNC_R[s]]
+        for (op, r) in cfgs:
+            post = max(2 * s, p2above(r))
+            name = "ind_s%d_%s" % (s, OPN[op]) + ("_r%d" % r if op == 4 else "")
+            qtiers = ("thorough",) if (op == 4 and (s, r) in ((8, 15), (8, 16), (4, 17))) else tiers
+            if ctx.tier not in qtiers:
+                continue
+            qs.append(Q(name, ["ind.c"], defs=["S=%d" % s, "OP=%d" % op, "R=%d" % r, "SMAXPOST=%d" % post], units=[U],
+                        unwind=max(post + 1, 5), unwindset=["parsec_taskpool_sync_ids_context.0:8"],
+                        checks=["bounds", "pointer"], object_bits=12, timeout=900, tiers=qtiers,
+                        info=dict(info, bounds={"S": s, "op": OPN[op], "R": r, "slots walked after the operation": post})))
     return qs
 
 def mutants(ctx):
-    return []
+    return [
+        Mutant("reserve_grow_off_by_one", U, "idx = (uint32_t)++taskpool_array_pos;\n\n    if( (NULL == taskpool_array) || (idx >= taskpool_array_size) ) {",
+               "idx = (uint32_t)++taskpool_array_pos;\n\n    if( (NULL == taskpool_array) || (idx > taskpool_array_size) ) {", queries=["ind_s4_reserve"]),
+        Mutant("reserve_fill_skips_first_new_slot", U, "for( uint32_t i = (taskpool_array_size>>1); i < taskpool_array_size;\n             taskpool_array[i++] = NOTASKPOOL );\n    }\n    tp->taskpool_id = idx;",
+               "for( uint32_t i = (taskpool_array_size>>1)+1; i < taskpool_array_size;\n             taskpool_array[i++] = NOTASKPOOL );\n    }\n    tp->taskpool_id = idx;", queries=["ind_s4_reserve"]),
+        Mutant("lookup_excludes_last_id", U, "if( taskpool_id <= taskpool_array_pos ) {", "if( taskpool_id < taskpool_array_pos ) {", queries=["ind_s4_register", "ind_s4_lookup"]),
+        Mutant("sync_size_off_by_one", U, "while (idx >= msz){", "while (idx > msz){", queries=["ind_s4_sync_r4"]),
+        Mutant("sync_fill_skips_first_new_slot", U, "for( uint32_t i = taskpool_array_size; i < msz;", "for( uint32_t i = taskpool_array_size + 1; i < msz;", queries=["ind_s4_sync_r4"]),
+        Mutant("sync_keeps_local_pos", U, "taskpool_array_size = msz;\n    taskpool_array_pos = idx;", "taskpool_array_size = msz;", queries=["ind_s4_sync_r2"]),
+    ]
 
-CLAIMED = False
+CLAIMED = True
+MANIFEST = {
+ "engine": "cbmc-src",
+ "text": "Bounded model checking of the real taskpool-id registry of parsec.c (the whole translation unit, included): an inductive step per operation kind "
+         "(reserve_id, register, unregister, sync_ids_context, lookup) from a symbolic registry state satisfying a representation invariant, for array sizes 1 (the initial, "
+         "unallocated state), 2, 4, 8 (thorough 16): the invariant is re-established (array walked under bounds/pointer checks, so it has the recorded size across the doubling "
+         "reallocs), reserve_id returns pos+1, after sync with a MAX-reduction stub the position is the maximum over the ranks (next id = max+1 on every rank), and a lookup of a "
+         "symbolic id returns the taskpool registered under it and NULL for reserved-only, unregistered, skipped or future ids.",
+ "note": "concurrent reservations are NOT covered (CBMC refuses the unit for its thread encoding; see harness/C37/NOT_APPLICABLE.md) - only lock release is checked; id 0 outside; "
+         "array sizes enumerated up to 16 pre / 64 post; the invariant is ours (closure checked); MPI reduced to a MAX stub.",
+ "technique": "CBMC bounded symbolic execution of the real C unit (one operation from a symbolic invariant state) + SAT (cadical)",
+}
